@@ -34,6 +34,8 @@ def handleProbe (fs : List (String × String)) : String := Id.run do
     else if score > amax - 1 then some s!"health-score-out-of-range:{score}"
     else if !suspected && score > s0 then some "health-score-rose-on-successful-probe"
     else if suspected && score < s0 then some "health-score-fell-on-failed-probe"
+    else if suspected && getD fs "accuser" "S" != "S" && getD fs "accuser" "-" != "-" then
+      some s!"own-evidence-suspicion-signed-with-another-name:{getD fs "accuser" "?"}(the-prober-would-later-count-as-its-own-confirmer)"
     else none
   return verdict agree bad (evs.length ≥ 2) s!"probe-{tcp}-{if mSusp then "fail" else "ok"}" (if agree then "" else s!"model=susp:{mSusp},score:{mScore}")
 
